@@ -304,6 +304,33 @@ def set_nested(d, dotted, value):
     d[parts[-1]] = value
 
 
+def documented_names(lang, per_lang):
+    """Block names the documentation promises for every wrapped class / the library (docs/input.rst,
+    'C header' / 'C implementation'), whether or not the default output happens to contain them."""
+    if lang != "c" or not per_lang.get("cxx"):
+        return set()  # (C++ libraries only: a C library has no CXX_* blocks)
+    out = set(["CXX_declarations", "C_declarations", "CXX_definitions", "C_definitions"])
+    classes = set()
+    for n in list(per_lang.get("uniq", {})) + list(per_lang.get("amb", [])):
+        m = re.match(r"^class\.([A-Za-z0-9_]+)\.", n)
+        if m:
+            classes.add(m.group(1))
+    for c in classes:
+        for b in ("CXX_declarations", "C_declarations", "CXX_definitions", "C_definitions"):
+            out.add("class.%s.%s" % (c, b))
+    return out
+
+
+def pick_name(names, pick, prefer=None):
+    """Selector -> name; a third of the draws prefer names with a special shape when there are any."""
+    names = sorted(names)
+    if prefer:
+        special = [n for n in names if prefer(n)]
+        if special and (int(pick * 9973) % 3 == 0):
+            names = special
+    return pick_from(names, pick)
+
+
 def pick_from(seq, pick):
     seq = sorted(seq)
     if not seq:
@@ -417,7 +444,10 @@ def execute_history_c12(spec, camp):
             if st == "ok":
                 for lang, files in outputs_by_lang(tr).items():
                     uniq, amb, skels = collect_blocks(files)
-                    per[lang] = {"uniq": {n: norm_body(b) for n, (p, b) in uniq.items()}, "amb": set(amb)}
+                    per[lang] = {"uniq": {n: norm_body(b) for n, (p, b) in uniq.items()}, "amb": set(amb),
+                                 "cxx": str(clean.get("language", "c++")).lower() in ("c++", "cxx")
+                                 and any(n.endswith("CXX_definitions") or n.endswith("CXX_declarations")
+                                         for n in list(uniq) + list(amb))}
             baseline_cache[key] = (st, msg, per)
         return baseline_cache[key]
 
@@ -476,9 +506,9 @@ def execute_history_c12(spec, camp):
             if workflow != "userfile":
                 continue
             st, msg, per = baseline()
-            names = [n for n in per.get(lang, {}).get("uniq", {})
-                     if n not in store.code.get(lang, {})]
-            name = pick_from(names, op["pick"])
+            cand = set(per.get(lang, {}).get("uniq", {})) | documented_names(lang, per.get(lang, {}))
+            names = [n for n in cand if n not in store.code.get(lang, {}) and n not in per.get(lang, {}).get("amb", [])]
+            name = pick_name(names, op["pick"], prefer=lambda n: n.split(".")[-1].endswith("_declarations"))
             if name is None:
                 continue
             store.userfile.setdefault(lang, {})[name] = (list(op["body"]), op.get("indent", ""), op.get("chan", "yaml"))
@@ -486,10 +516,12 @@ def execute_history_c12(spec, camp):
             events.append(("SET_USERFILE", lang, name))
         elif kind == "SET_CODE":
             st, msg, per = baseline()
-            names = [n for n in per.get(lang, {}).get("uniq", {})
+            cand = set(per.get(lang, {}).get("uniq", {})) | documented_names(lang, per.get(lang, {}))
+            names = [n for n in cand
                      if n not in store.userfile.get(lang, {}) and n not in store.gen.get(lang, {})
+                     and n not in per.get(lang, {}).get("amb", [])
                      and not any(n in v for v in decl_block.values())]
-            name = pick_from(names, op["pick"])
+            name = pick_name(names, op["pick"], prefer=lambda n: "__" in n or n.split(".")[-1].endswith("_declarations"))
             if name is None:
                 continue
             store.code.setdefault(lang, {})[name] = list(op["body"])
@@ -724,9 +756,10 @@ def execute_history_c12(spec, camp):
             # supplied bodies whose block exists in the baseline must still have a block
             for table, chan in ((store.code, "splicer_code"), (store.userfile, "userfile"), (store.gen, "edited-generated-file")):
                 for name in sorted(table.get(lang, {})):
-                    if name in base["uniq"] and name not in uniq and name not in amb:
+                    if (name in base["uniq"] or name in documented_names(lang, base)) and name not in uniq \
+                            and name not in amb:
                         vs.append({"inv": "I12.1-block-vanished", "kind": "%s:%s" % (lang, chan), "path": "",
-                                   "detail": {"block": name}})
+                                   "detail": {"block": name, "documented_only": name not in base["uniq"]}})
         # I12.5 nothing supplied for language X appears in language Y's files; stray text nowhere
         for lang in langs:
             for table in (store.code, store.gen):
